@@ -8,6 +8,10 @@ open AHP AHP.Sexp Driver.TokIO
 
 def run (payload : String) : String :=
   match Sexp.parse payload with
+  | some (.list [.atom "wrap", t]) =>
+    match toStr? t with
+    | some text => (strAtom (wrapStr text)).render
+    | none => "bad-case"
   | some (.list hist) =>
     match hist.mapM toTokens? with
     | some hs =>
